@@ -142,7 +142,7 @@ func (r *Reference) SetLen(l int) error {
 // The function fn must not add or delete tags held by the receiver during
 // iteration.
 func (r *Reference) Tags(fn func(t Tag, value string)) {
-	if fn == nil {
+	if fn == nil || r == nil {
 		return
 	}
 	fn(refNameTag, r.Name())
@@ -167,6 +167,12 @@ func (r *Reference) Tags(fn func(t Tag, value string)) {
 // Get returns the string representation of the value associated with the
 // given reference line tag. If the tag is not present the empty string is returned.
 func (r *Reference) Get(t Tag) string {
+	if r == nil {
+		if t == refNameTag {
+			return r.Name()
+		}
+		return ""
+	}
 	switch t {
 	case refNameTag:
 		return r.Name()
@@ -272,6 +278,9 @@ func (r *Reference) Set(t Tag, value string) error {
 // String returns a string representation of the Reference according to the
 // SAM specification section 1.3.
 func (r *Reference) String() string {
+	if r == nil {
+		return ""
+	}
 	var buf bytes.Buffer
 	fmt.Fprintf(&buf, "@SQ\tSN:%s\tLN:%d", r.name, r.lRef)
 	if r.md5 != "" {
